@@ -1,5 +1,6 @@
 """C15 — Requests have exactly the Omaha v3 wire shape (schema + provenance clauses)."""
 import json, os
+import re
 from ..core import BV, strip, walk, fmt_t
 from .. import lib, guards, terms, flow, schema, facts
 
@@ -60,26 +61,29 @@ def run(F, R):
     bi = lib.one(R, "C15-R2", c, "RequestBuilder::build_intermediate", item="build_intermediate", impl_self=RB)
     if bi:
         N = {1: "self", 2: "handler"}
-        ag = [x for x in walk(bi.trace_local(0)) if x[0] == "agg" and x[2] and x[2].endswith("Intermediate::Intermediate")]
+        from .. import optnorm
+        ag = [x for x in walk(optnorm.inline_all(W, bi, bi.trace_local(0))) if x[0] == "agg" and x[2] and x[2].endswith("Intermediate::Intermediate")]
         if R.floor("C15-R2", "Intermediate construction", len(ag), 1):
             f = dict(zip(ag[0][4], [terms.render(bi, v, W, N) for v in ag[0][3]]))
             R.check("C15-R2", "uri", f.get("uri") == "self.config.service_url", f.get("uri"), "uri <- %s" % f.get("uri"))
             exp_body = "RequestWrapper{Request{to_string('3.0'), self.config.updater.name, to_string(self.config.updater.version), self.params.source, 1, self.request_id, self.session_id, self.config.os, collect::<std::vec::Vec<protocol::request::App>>(map(cloned(iter(self.app_entries)), <protocol::request::App as std::convert::From<request_builder::AppEntry>>::from))}}"
-            R.check("C15-R2", "body-fields", f.get("body") == exp_body, (f.get("body") or "")[:200], "body is %s, expected %s" % (f.get("body"), exp_body))
+            _nt = lambda x: re.sub(r"collect::<[^(]*>\(", "collect(", x or "")   # the collection type is fixed by the field's type
+            R.check("C15-R2", "body-fields", _nt(f.get("body")) == _nt(exp_body), (f.get("body") or "")[:200], "body is %s, expected %s" % (f.get("body"), exp_body))
             rq = [x for x in walk(ag[0][3][ag[0][4].index("body")]) if x[0] == "agg" and x[2] == "protocol::request::Request::Request"]
             if rq:
                 R.check("C15-R2", "body-field-names", rq[0][4] == ["protocol_version", "updater", "updater_version", "install_source", "is_machine", "request_id", "session_id", "os", "apps"], str(rq[0][4]), "Request fields: %s" % rq[0][4])
         pv = c.consts.get("protocol::PROTOCOL_V3")
         R.check("C15-R2", "protocol-constant", pv and pv.get("str") == table["protocol_version"], "PROTOCOL_V3 = %r" % (pv and pv.get("str")), "PROTOCOL_V3 = %r" % (pv and pv.get("str")))
         tuples = []
-        for b in sorted(bi.reach0):
-            for s_ in bi.blocks[b]["s"]:
-                if s_["k"] == "assign" and s_["r"]["k"] == "agg" and s_["r"].get("ak") == "tuple" and len(s_["r"]["ops"]) == 2:
-                    t = bi._trace_rv(s_["r"], None, 0)
-                    k = terms.render(bi, t[3][0], W, N)
-                    v = terms.render(bi, t[3][1], W, N)
-                    if k.startswith("'") or "HEADER" in k or "header" in k.lower():
-                        tuples.append((k, v))
+        for hv_ in lib.with_private_callees(W, bi):
+            for b in sorted(hv_.reach0):
+                for s_ in hv_.blocks[b]["s"]:
+                    if s_["k"] == "assign" and s_["r"]["k"] == "agg" and s_["r"].get("ak") == "tuple" and len(s_["r"]["ops"]) == 2:
+                        t = hv_._trace_rv(s_["r"], None, 0)
+                        k = terms.render(hv_, t[3][0], W, N)
+                        v = terms.render(hv_, t[3][1], W, N)
+                        if k.startswith("'") or "HEADER" in k or "header" in k.lower():
+                            tuples.append((k, v))
         hdr = dict(tuples)
         R.check("C15-R2", "header:content-type", any(k in ("as_str(http::header::CONTENT_TYPE)", "as_str(hyper::header::CONTENT_TYPE)", "'content-type'") and v == "to_string('application/json')" for k, v in tuples), "content-type: application/json", "content-type header: %s" % [kv for kv in tuples if "CONTENT" in kv[0].upper()])
         R.check("C15-R2", "header:updater", hdr.get("'X-Goog-Update-Updater'") == "self.config.updater.name", hdr.get("'X-Goog-Update-Updater'"), "updater header <- %s" % hdr.get("'X-Goog-Update-Updater'"))
@@ -100,6 +104,23 @@ def run(F, R):
             a1 = terms.render(cv, cv.trace_op(hd[0]["args"][1]), W, {1: "im"})
             a2 = terms.render(cv, cv.trace_op(hd[0]["args"][2]), W, {1: "im"})
             ok = ok and "next(into_iter(im.headers))" in a1 and "next(into_iter(im.headers))" in a2 and a1.endswith(".0") and a2.endswith(".1")
+        else:
+            # the same copy written as a fold: headers.iter().fold(post(uri), |b, (k, v)| b.header(*k, v))
+            for _, ft in cv.calls():
+                if not lib.callee_is(ft, "std::iter::Iterator::fold") or len(ft["args"]) != 3:
+                    continue
+                src = terms.render(cv, cv.trace_op(ft["args"][0]), W, {1: "im"})
+                clo = [x for x in walk(cv.trace_op(ft["args"][2])) if x[0] == "agg" and x[1] == "closure"]
+                if not clo:
+                    continue
+                fb = W.bv(clo[0][2])
+                fh = [t for _, t in fb.calls() if lib.callee_is(t, "http::request::Builder::header")]
+                if len(fh) == 1 and src in ("iter(im.headers)", "into_iter(im.headers)"):
+                    b0 = terms.render(fb, fb.trace_op(fh[0]["args"][0]), W, {})
+                    k0 = terms.render(fb, fb.trace_op(fh[0]["args"][1]), W, {})
+                    v0 = terms.render(fb, fb.trace_op(fh[0]["args"][2]), W, {})
+                    rr = lib.strip_refs(fb.trace_local(0))
+                    ok = b0 == "param2" and k0 == "param3.0" and v0 == "param3.1" and rr[0] == "call" and lib.callee_is({"callee": rr[1]}, "http::request::Builder::header")
         R.check("C15-R2", "all-headers-copied", ok, "every (name, value) of intermediate.headers becomes a header", "headers are not copied 1:1 from intermediate.headers")
 
     # ---------------------------------------------------------------- R3 merge and order
@@ -141,9 +162,11 @@ def run(F, R):
         fv = BV.of(fa[0])
         ag = [x for x in walk(fv.trace_local(0)) if x[0] == "agg" and x[2] == "protocol::request::App::App"]
         if ag:
+            from .. import optnorm
             got = dict(zip(ag[0][4], [terms.render(fv, v, W, {1: "entry"}) for v in ag[0][3]]))
+            got["ping"] = optnorm.option_desc(W, fv, ag[0][3][ag[0][4].index("ping")], {1: "entry"})
             exp = {"id": "entry.app.id", "version": "to_string(entry.app.version)", "fingerprint": "entry.app.fingerprint", "cohort": "Some{entry.app.cohort}", "update_check": "entry.update_check", "events": "entry.events",
-                   "ping": "phi(None{}|Some{Ping{entry.app.user_counting@ClientRegulatedByDate.0, entry.app.user_counting@ClientRegulatedByDate.0}})", "extra_fields": "entry.app.extra_fields"}
+                   "ping": "None|Some{Ping{entry.app.user_counting@ClientRegulatedByDate.0, entry.app.user_counting@ClientRegulatedByDate.0}}", "extra_fields": "entry.app.extra_fields"}
             R.check("C15-R3", "entry-to-wire", got == exp, "every wire field from its entry member", "wire app built as %s" % {k: v for k, v in got.items() if exp.get(k) != v})
 
     # ---------------------------------------------------------------- R4 builder unaltered
